@@ -305,6 +305,11 @@ def _syn(prop, title, rule, extra_models=(), extra_assume=()):
 CHECKS["C01"] = _syn("C01", "every produced program is well-typed",
     "one trace per grammar: programs created / mapped / mutated / crossed over with all five representations and "
     "four deciders (events produced / failed); distinct = distinct traces by content")
+# the decider without a depth limit: every derivation ends (bounded depth), the rule before the repair does not
+CHECKS["C01"]["models"] = CHECKS["C01"]["models"] + [
+    {"module": "MC_SynPT", "cfg": "MC_SynPT.cfg", "workers": 8, "timeout": 900},
+    {"module": "MC_SynPT", "cfg": "MC_SynPT_anyfallback.cfg", "workers": 8, "timeout": 900, "expect_violation": "PtDepthBounded is violated"},
+]
 CHECKS["C02"] = _syn("C02", "refinements hold on every produced value",
     "as C01, plus validate() called on values produced by generate() of every refinement (events validate)")
 CHECKS["C03"] = _syn("C03", "depth limits respected, every feasible limit usable",
